@@ -97,7 +97,7 @@ def run(seed, tier, extra_cases=None, use_cache=True):
     cs = extra_cases if extra_cases is not None else cases(seed, tier)
     st = sp.run(seed, tier, extra_cases=cs)          # real rewriter + static verdicts (named deviations)
     statdevs = {}
-    for prop in ("H01", "C02", "C03", "C06"):
+    for prop in ("H01", "C01", "C02", "C03", "C06"):
         for rid, v, d in st["verdicts"].get(prop, []):
             if v == "dev":
                 statdevs.setdefault(rid, set()).update(
@@ -156,6 +156,10 @@ def run(seed, tier, extra_cases=None, use_cache=True):
                 # a function value was used as a property key / coerced to text: its SOURCE TEXT is in the log,
                 # and rewriting legitimately reformats source text (Function.prototype.toString): not comparable
                 nskip_src += 1
+                continue
+            if "${" in st["cases"][rid]["code"] and any(k.startswith("prim:") and (v or {}).get("k") != "throw" for k, v in resp.items()):
+                # a fault that changes the VALUE of the n-th coercion of an object: the permitted delay of template
+                # coercions renumbers the coercions, so the fault would hit a different operation in the two runs
                 continue
             rrid = "%s/%s/%s" % (rid, mode, run_.get("sid"))
             dd = b.get("ddiast") or {}
